@@ -18,6 +18,7 @@
 //! Expected values always come from the generator's description, never from noodles.
 
 mod aln;
+mod flt;
 mod var;
 
 use std::{fmt::Display, io::Read, path::Path};
@@ -61,7 +62,6 @@ trait Driver {
     fn bgzf(&self, f: usize) -> bool;
     fn raw_magic_len(&self, f: usize) -> usize;
     fn record_variant(&self, f: usize) -> &'static str;
-    fn path_ext(&self, f: usize) -> Option<&'static str>;
     fn cols(&self) -> &'static [&'static str];
     fn expected(&self) -> &Rb;
     fn write(&self, f: usize) -> Result<Vec<u8>, Fail>;
@@ -72,10 +72,12 @@ trait Driver {
     fn structural(&self, f: usize, bytes: &[u8]) -> Result<(), (&'static str, String)>;
     fn write_path(&self, p: &Path) -> Result<(), Fail>;
     fn read_path(&self, p: &Path) -> Result<Rb, Fail>;
-    /// generator-side feature counts of the set (same-name templates by consistency kind)
+    /// generator-side feature counts of the set; `{fmt}` in the key is replaced by the format read back
     fn features(&self) -> Vec<(String, u64)> {
         Vec::new()
     }
+    /// (file name for the writer's build_from_path, index of the pair it must select)
+    fn path_cases(&self) -> &'static [(&'static str, usize)];
 }
 
 // ---------------------------------------------------------------------------------------------
@@ -127,9 +129,6 @@ impl Driver for AlnDriver {
     fn record_variant(&self, f: usize) -> &'static str {
         aln::AFMTS[f].record_variant()
     }
-    fn path_ext(&self, f: usize) -> Option<&'static str> {
-        aln::AFMTS[f].path_ext()
-    }
     fn cols(&self) -> &'static [&'static str] {
         &aln::COLS
     }
@@ -161,7 +160,23 @@ impl Driver for AlnDriver {
         aln::read_path(p, &self.repo).map(aln_rb)
     }
     fn features(&self) -> Vec<(String, u64)> {
-        self.set.pair_stats.clone()
+        let mut v: Vec<(String, u64)> = self.set.pair_stats.iter().map(|(k, n)| (format!("same_name_templates_read_back[{{fmt}}/{k}]"), *n)).collect();
+        let (mut scalar, mut array) = (0u64, 0u64);
+        for r in &self.set.recs {
+            for (_, a) in &r.aux {
+                match a {
+                    aln::Aux::Float(x) if flt::sig_digits(*x) >= 7 => scalar += 1,
+                    aln::Aux::FloatArr(xs) => array += xs.iter().filter(|x| flt::sig_digits(**x) >= 7).count() as u64,
+                    _ => {}
+                }
+            }
+        }
+        v.push(("floats_needing_ge_7_digits_read_back[{fmt}/scalar-f]".into(), scalar));
+        v.push(("floats_needing_ge_7_digits_read_back[{fmt}/B:f]".into(), array));
+        v
+    }
+    fn path_cases(&self) -> &'static [(&'static str, usize)] {
+        aln::PATH_CASES
     }
 }
 
@@ -211,9 +226,6 @@ impl Driver for VarDriver {
     fn record_variant(&self, f: usize) -> &'static str {
         var::VFMTS[f].record_variant()
     }
-    fn path_ext(&self, f: usize) -> Option<&'static str> {
-        var::VFMTS[f].path_ext()
-    }
     fn cols(&self) -> &'static [&'static str] {
         &var::COLS
     }
@@ -243,6 +255,29 @@ impl Driver for VarDriver {
     }
     fn read_path(&self, p: &Path) -> Result<Rb, Fail> {
         var::read_path(p).map(var_rb)
+    }
+    fn features(&self) -> Vec<(String, u64)> {
+        let (mut qual, mut info, mut format) = (0u64, 0u64, 0u64);
+        let wide = |v: &var::Val| -> u64 {
+            match v {
+                var::Val::Float(x) => (flt::sig_digits(*x) >= 7) as u64,
+                var::Val::FloatArr(xs) => xs.iter().flatten().filter(|x| flt::sig_digits(**x) >= 7).count() as u64,
+                _ => 0,
+            }
+        };
+        for r in &self.set.recs {
+            qual += r.qual.map(|q| (flt::sig_digits(q) >= 7) as u64).unwrap_or(0);
+            info += r.info.iter().map(|(_, v)| wide(v)).sum::<u64>();
+            format += r.samples.iter().flatten().flatten().map(wide).sum::<u64>();
+        }
+        vec![
+            ("floats_needing_ge_7_digits_read_back[{fmt}/QUAL]".into(), qual),
+            ("floats_needing_ge_7_digits_read_back[{fmt}/INFO]".into(), info),
+            ("floats_needing_ge_7_digits_read_back[{fmt}/FORMAT]".into(), format),
+        ]
+    }
+    fn path_cases(&self) -> &'static [(&'static str, usize)] {
+        var::PATH_CASES
     }
 }
 
@@ -426,7 +461,7 @@ fn run_set(d: &dyn Driver, ctx: &Ctx, idx: u64, seed: u64) -> CaseOut {
                 src_ok[f] = true;
                 out.o.count(&format!("detected_ok[{side}/{name}]"), 1);
                 for (k, n) in d.features() {
-                    out.o.count(&format!("same_name_templates_read_back[{name}/{k}]"), n);
+                    out.o.count(&k.replace("{fmt}", name), n);
                 }
                 out.o.count("records_compared", exp.lines.len() as u64);
             }
@@ -596,47 +631,54 @@ fn run_set(d: &dyn Driver, ctx: &Ctx, idx: u64, seed: u64) -> CaseOut {
         }
     }
 
-    // ---- path based builders: the writer picks the pair from the extension, the reader from the content
-    for f in 0..n {
-        let Some(ext) = d.path_ext(f) else { continue };
-        if out.witness.is_some() {
-            continue;
-        }
-        if files[f].is_none() {
+    // ---- path based builders: the writer picks the pair from the file name, the reader from the content
+    let all_names = exp.lines.len() <= 250;
+    let dir = ctx.work.join(format!("c{idx}-{side}"));
+    for (ci, &(rel, f)) in d.path_cases().iter().enumerate() {
+        if out.witness.is_some() || files[f].is_none() || (!all_names && ci >= 4) {
             continue;
         }
         let name = d.fmt_name(f);
-        let path = ctx.work.join(format!("c{idx}-{side}.{ext}"));
+        let path = dir.join(rel);
+        if let Some(p) = path.parent() {
+            let _ = std::fs::create_dir_all(p);
+        }
         out.o.count("path_runs", 1);
+        out.o.count(&format!("path_names[{side}/{rel}]"), 1);
         match guard::catch(|| d.write_path(&path)) {
             Err(p) => {
-                out.violation(format!("panic:{}", p.sig), format!("{side}: build_from_path writer for .{ext} panicked: {}", p.message), Value::Null);
+                out.violation(format!("panic:{}", p.sig), format!("{side}: build_from_path(\"{rel}\") writer panicked: {}", p.message), Value::Null);
                 continue;
             }
             Ok(Err(e)) => {
-                out.violation(format!("{side}-path-writer-fails:{name}:{}", e.stage), format!("{side}: build_from_path(\"x.{ext}\") writer fails at {} although build_from_writer for {name} accepted the set: {}", e.stage, e.err), Value::Null);
+                out.violation(format!("{side}-path-writer-fails:{rel}:{}", e.stage), format!("{side}: build_from_path(\"{rel}\") writer fails at {} although build_from_writer for {name} accepted the set: {}", e.stage, e.err), Value::Null);
                 continue;
             }
             Ok(Ok(())) => {}
         }
         let bytes = std::fs::read(&path).unwrap_or_default();
         if let Err((kind, msg)) = d.structural(f, &bytes) {
-            out.violation(format!("{side}-writer-{kind}-mismatch:{name}"), format!("{side}: build_from_path(\"x.{ext}\") produced a stream that is not {name}: {msg}"), head(&bytes));
+            out.violation(
+                format!("{side}-path-writer-{kind}-mismatch:{rel}"),
+                format!("{side}: the writer built with build_from_path(\"{rel}\") (no set_format) must produce {name}; the file it wrote is something else: {msg}"),
+                head(&bytes),
+            );
         }
         match judge(cols, exp, guard::catch(|| d.read_path(&path))) {
             Verdict::Same => out.o.count("path_runs_ok", 1),
             Verdict::Failed(stage, err) => {
                 if eof_only(&bytes) && stage == "open" {
-                    out.violation(format!("{side}-autodetect-fails-on-eof-only-bgzf"), format!("{side}: build_from_path on the x.{ext} file written for a set without header text and records (28-byte BGZF EOF marker) fails: {err}"), head(&bytes));
+                    out.violation(format!("{side}-autodetect-fails-on-eof-only-bgzf"), format!("{side}: build_from_path on the {rel} file written for a set without header text and records (28-byte BGZF EOF marker) fails: {err}"), head(&bytes));
                 } else {
-                    out.violation(format!("{side}-path-autodetect-{stage}-fails:{name}"), format!("{side}: reader build_from_path on the file written through build_from_path(\"x.{ext}\") fails at {stage}: {err}"), head(&bytes));
+                    out.violation(format!("{side}-path-autodetect-{stage}-fails:{rel}"), format!("{side}: reader build_from_path on the file written through build_from_path(\"{rel}\") fails at {stage}: {err}"), head(&bytes));
                 }
             }
-            Verdict::Differs(col, detail) => out.violation(format!("{side}-path-readback-differs:{name}:{col}"), format!("{side}: x.{ext} written and read through build_from_path: {detail}"), head(&bytes)),
-            Verdict::Panicked(sig, msg) => out.violation(format!("panic:{sig}"), format!("{side}: build_from_path reader on x.{ext} panicked: {msg}"), head(&bytes)),
+            Verdict::Differs(col, detail) => out.violation(format!("{side}-path-readback-differs:{rel}:{col}"), format!("{side}: {rel} written and read through build_from_path: {detail}"), head(&bytes)),
+            Verdict::Panicked(sig, msg) => out.violation(format!("panic:{sig}"), format!("{side}: build_from_path reader on {rel} panicked: {msg}"), head(&bytes)),
         }
         let _ = std::fs::remove_file(&path);
     }
+    let _ = std::fs::remove_dir_all(&dir);
     out.o
 }
 
@@ -799,14 +841,21 @@ fn main() {
             .into(),
     );
     rep.assumptions.push(
-        "shapes that hit a still-open defect are kept out of the random sets and covered by one minimal deterministic witness set each (class witness-*; \
-         everything such a set trips is reported under the single signature <side>-witness[<shape>]): headerless SAM whose first QNAME starts with CRAM, placed \
-         unmapped read overhanging its reference end. The variant witness-* classes are regression sets of repaired defects; their shapes (GT of mixed ploidy, \
-         phased missing allele, vector missing in all samples, INFO key with missing value, per-sample vectors of unequal length, a sample column that is '.') \
-         are part of the random model. Deterministic adversarial sets: headerless SAM / SAM.gz whose first QNAME is or starts with a magic prefix (BAM, BAM_0001, \
+        "classes witness-* are minimal deterministic sets for one shape each; everything such a set trips is reported under the single signature \
+         <side>-witness[<shape>]. All of them are by now regression sets of repaired defects (headerless SAM whose first QNAME starts with CRAM, placed unmapped \
+         read overhanging its reference end, GT of mixed ploidy, phased missing allele, vector missing in all samples, INFO key with missing value, per-sample \
+         vectors of unequal length, a sample column that is '.'); except for the CRAM-named first read their shapes are part of the random model. Deterministic adversarial sets: headerless SAM / SAM.gz whose first QNAME is or starts with a magic prefix (BAM, BAM_0001, \
          BAMBI.7, BA, B, BCF, BCF_1, CRA, CRA_M, C) under the ordinary signatures; three multi-block sets per side (>= 300 KiB of text, >= 5 BGZF data blocks \
          in SAM.gz/BAM/VCF.gz/BCF, long names / SEQ+QUAL / Z, H, B aux / INFO and FORMAT strings and lists / IDs / alleles) so that every kind of value \
          straddles block boundaries of the BGZF targets"
+            .into(),
+    );
+    rep.assumptions.push(
+        "floats (aux f and B:f; QUAL, INFO and FORMAT Float) range over the full finite f32 bit-pattern space (7/8/9-digit values, powers of two +- ulp, MIN/MAX/ \
+         MIN_POSITIVE, subnormals, -0.0) and are compared bit for bit after every write and conversion; the canonical NaN and the infinities are included where \
+         every format carries them (B:f entries, INFO/FORMAT Float) and excluded from scalar aux f, which the SAM writer rejects explicitly (\"invalid float\"). \
+         build_from_path (no set_format): 27 + 22 file names with extra dots, format words elsewhere in the name, dots in directory names; the last extension \
+         decides; pinned from the unchanged tree: no / unknown / upper-case extension = default format (SAM / VCF), BGZF iff the last extension is gz, bgz, bam or bcf"
             .into(),
     );
     rep.assumptions.push(
@@ -833,7 +882,20 @@ fn main() {
             rep.floor(&format!("detected_ok[variant/{}]", f.name()), c(&format!("detected_ok[variant/{}]", f.name())), 8);
         }
         rep.floor("record_variant_observations", c("record_variant_observations"), 50);
-        rep.floor("path_runs", c("path_runs"), 50);
+        rep.floor("path_runs", c("path_runs"), 300);
+        for (rel, _) in aln::PATH_CASES {
+            rep.floor(&format!("path_names[alignment/{rel}]"), c(&format!("path_names[alignment/{rel}]")), 5);
+        }
+        for (rel, _) in var::PATH_CASES {
+            rep.floor(&format!("path_names[variant/{rel}]"), c(&format!("path_names[variant/{rel}]")), 5);
+        }
+        // values whose shortest decimal needs >= 7 significant digits went through the text formats
+        for k in ["sam/scalar-f", "sam.gz/scalar-f", "sam/B:f", "cram/scalar-f", "bam/scalar-f"] {
+            rep.floor(&format!("floats_needing_ge_7_digits_read_back[{k}]"), c(&format!("floats_needing_ge_7_digits_read_back[{k}]")), 40);
+        }
+        for k in ["vcf/QUAL", "vcf/INFO", "vcf/FORMAT", "vcf.gz/INFO", "bcf/INFO", "bcf/FORMAT"] {
+            rep.floor(&format!("floats_needing_ge_7_digits_read_back[{k}]"), c(&format!("floats_needing_ge_7_digits_read_back[{k}]")), 40);
+        }
         // same-name templates whose mate fields are consistent / stale in one direction / stale in both went
         // through CRAM (where attaching mates could rewrite them)
         for k in ["consistent", "stale-first-only", "stale-second-only", "stale-both"] {
